@@ -6,7 +6,8 @@ statement of a small language with an interpreter) and the translated
 GlobalProfiler (Gen/GlobalProfiler.v) for the explicit mode.
 Tie: generated deterministic programs with a termination trigger at the K-th
 executed statement line, kinds {return, sys.exit(3), KeyboardInterrupt,
-ValueError}, modes {kernprof -l, -l -p, -b, plain, -l -m, -m, LINE_PROFILE=1}; the
+ValueError}, modes {kernprof -l, -l -p, -b, plain, -l -m, -m, LINE_PROFILE=1} and the
+-i 1 variants {-l -i 1, -i 1, -b -i 1} with a periodic dump forced at a known statement; the
 written files are loaded with the rebuilt package's loaders and compared inside Coq
 with the model's snapshot and with the exact execution counts of an independent
 sys.settrace oracle run of the same program."""
@@ -24,7 +25,7 @@ from harness import core
 PROP = 'C06'
 MODULE = 'Props.C06'
 THEOREMS = ['C06_dump_on_every_outcome', 'C06_view_agrees_with_file', 'C06_flush_before_dump_would_lose_results',
-            'C06_final_dump_with_periodic_dumps', 'C06_wrapper_windows_transparent',
+            'C06_final_dump_with_periodic_dumps', 'C06_cprofile_periodic_dump_refuted', 'C06_wrapper_windows_transparent',
             'C06_unwindowed_segment_would_be_lost', 'C06_builtin_mode_records_profiled_sections', 'C06_content',
             'C06_content_closed_stream', 'C06_content_nonvacuous', 'C06_explicit_atexit_partial',
             'C06_explicit_stdout_unusable_refuted', 'C06_explicit_nonvacuous']
@@ -33,7 +34,15 @@ LEVEL = 'proof'
 KINDS = ['none', 'exit', 'kbd', 'exc']
 KCODE = {'none': 0, 'exit': 1, 'kbd': 2, 'exc': 3}
 MODES = ['l', 'lp', 'b', 'plain', 'lm', 'pm', 'explicit']
-# 'li' = kernprof -l -i 1 with a periodic dump forced while the outermost profiled call is running
+# 'li' = kernprof -l -i 1 with a periodic dump forced while the outermost profiled call is running;
+# 'plaini' = kernprof -i 1 and 'bi' = kernprof -b -i 1: the same under cProfile, whose dump switches the profiler off
+TIMED_C = {'plaini': 'plain', 'bi': 'b'}
+
+
+def base_mode(mode):
+    return TIMED_C.get(mode, mode)
+
+
 TICK = 100
 # how the program leaves its standard streams when it ends
 OUTS = ['ok', 'none', 'closed', 'unwritable', 'errnone']
@@ -55,6 +64,8 @@ TEE_TEXT = '''class Tee:
         self.stream.flush()
 '''
 F_EXPL = 'C06-explicit-show-needs-stdout'
+F_CPI = 'C06-cprofile-periodic-dump-stops-profiling'
+HELPERS = {'_wait', '_stamp'}      # functions of the program header that only the -i cases call
 
 STALE = 'stale results of an earlier run\n'
 
@@ -113,12 +124,14 @@ def _wait():
     import time
     t0 = time.time()
     seen = False
+    polls = 0
     while WAITFILE and time.time() - t0 < 30 and not seen:
         now = _stamp()
         seen = now is not None and now != _W0 and now[1] > 0
+        polls += 1
         time.sleep(0.01)
     time.sleep(0.2 if WAITFILE else 0)
-    print('WAITED', seen, flush=True)
+    print('WAITED', seen, 'polls=%d' % polls, flush=True)
 
 
 def tick(v=0):
@@ -293,6 +306,10 @@ def mode_cmd(mode, prog, k, kind, out='ok', showat=0, waitat=0):
         return kp + ['-b', f] + tail + ['builtin', out], f + '.prof', {}
     if mode == 'plain':
         return kp + [f] + tail + ['nodeco', out], f + '.prof', {}
+    if mode == 'plaini':
+        return kp + ['-i', '1', f] + tail + ['nodeco', out, '0', str(waitat), f + '.prof'], f + '.prof', {}
+    if mode == 'bi':
+        return kp + ['-b', '-i', '1', f] + tail + ['builtin', out, '0', str(waitat), f + '.prof'], f + '.prof', {}
     if mode == 'lm':
         return kp + ['-l', '-m', mod] + tail + ['builtin', out], mod + '.lprof', {}
     if mode == 'pm':
@@ -328,21 +345,39 @@ def regset(mode, prog):
     return list(range(prog['nfun'])) + [TICK]
 
 
-def expected_counts(mode, prog, ex):
+def tick_position(ex, waitat):
+    """number of events executed when the program waits for the periodic dump (-1: it does not)"""
+    seen = 0
+    for j, e in enumerate(ex if waitat else []):
+        if e == ('c', TICK):
+            seen += 1
+            if seen == waitat:
+                return j + 1
+    return -1
+
+
+def expected_counts(mode, prog, ex, cut=-1):
+    """cut >= 0 (cProfile modes only): what is recorded when a periodic dump after that many events has switched
+    the profiler off - nothing more under runctx; with -b until a new outermost profiled section switches it on"""
+    mode = base_mode(mode)
     reg = set(regset(mode, prog))
     if mode == 'b':
         # cProfile is on only inside the decorated functions' windows
-        cnt, depth = collections.Counter(), 0
-        for e in ex:
+        cnt, depth, off = collections.Counter(), 0, False
+        for j, e in enumerate(ex):
+            if j == cut:
+                off = True
             if e[0] == 'c' and e[1] in prog['deco']:
+                if depth == 0:
+                    off = False
                 depth += 1
-            if depth > 0 and e[0] == 'c':
+            if depth > 0 and e[0] == 'c' and not off:
                 cnt[e[1]] += 1
             if e[0] == 'r' and e[1] in prog['deco']:
                 depth -= 1
         return dict(cnt)
     if mode in ('plain', 'pm'):
-        cnt = collections.Counter(e[1] for e in ex if e[0] == 'c' and e[1] in reg)
+        cnt = collections.Counter(e[1] for e in (ex if cut < 0 else ex[:cut]) if e[0] == 'c' and e[1] in reg)
         return {k: v for k, v in cnt.items()}
     cnt = collections.Counter((e[1], e[2]) for e in ex if e[0] == 'l' and e[1] in reg)
     return {k: v for k, v in cnt.items()}
@@ -358,7 +393,7 @@ def impl_counts(mode, prog, loaded):
             continue
         if ent[2] not in names:
             has_data = bool(ent[3]) if loaded['kind'] == 'prof' else any(h for _, h in ent[3])
-            if not ent[2].startswith('<') and has_data:
+            if not ent[2].startswith('<') and ent[2] not in HELPERS and has_data:
                 extra.append(ent[2])
             continue
         if loaded['kind'] == 'prof':
@@ -388,6 +423,10 @@ def parse_view(text):
         if m and fn and name and int(m.group(2)):
             got[(fn, name, int(m.group(1)))] = int(m.group(2))
     return got
+
+
+def diff_keys(got, want):
+    return [k for k in set(got) | set(want) if got.get(k) != want.get(k)]
 
 
 def analyse(res_case, loaded, prog, ex, ended):
@@ -424,7 +463,15 @@ def analyse(res_case, loaded, prog, ex, ended):
     want = expected_counts(mode, prog, ex)
     if loaded['ok'] and got != want:
         diff = {str(k): (got.get(k), want.get(k)) for k in set(got) | set(want) if got.get(k) != want.get(k)}
-        fails.append('file content differs from the execution counts of the executed prefix: {key: (file, oracle)} = %r' % diff)
+        fid = None
+        cut = tick_position(ex, c.get('waitat', 0))
+        # the known finding and nothing else: cProfile with -i, a periodic dump was made, and the file holds exactly
+        # what had been recorded when that dump switched the profiler off (every key at most the oracle's count)
+        if (mode in TIMED_C and cut >= 0 and 'WAITED True' in r['out'] and got == expected_counts(mode, prog, ex, cut)
+                and all((got.get(k) or 0) <= (want.get(k) or 0) for k in diff_keys(got, want))):
+            fid = F_CPI
+        fails.append(('file content differs from the execution counts of the executed prefix: {key: (file, oracle)} = %r'
+                      % diff, fid))
     if extra:
         fails.append('statistics for functions the program does not define: %r' % extra)
     if mode == 'explicit' and loaded['ok']:
@@ -450,6 +497,8 @@ def analyse(res_case, loaded, prog, ex, ended):
             fails.append('-v: the report differs from the written file: {key: (report, file)} = %r' % diff)
     if c.get('waitat') and 'WAITED True' not in r['out']:
         fails.append(('INFRA: the periodic dump was not seen by the program: %r' % r['out'][-200:], 'infra'))
+    if mode in TIMED_C and re.search(r'^WAITED True polls=1$', r['out'], flags=re.M):
+        fails.append(('INFRA: the periodic dump was made before the program reached its waiting point: %r' % r['out'][-200:], 'infra'))
     if c['kind'] == 'none' and ('END %d' % prog['N']) not in r['out']:
         fails.append('the program did not run to its end: %r' % r['out'][-200:])
     fails = [f if isinstance(f, tuple) else (f, None) for f in fails]
@@ -567,6 +616,13 @@ def make_cases(rnd, tier, progs):
                     waitat = rnd.randrange(NPRE + 1, prog['N'] - 3)
                     k = 0 if kind == 'none' else rnd.randrange(waitat + 1, prog['N'] + 1)
                     cases.append(dict(p=pi, k=k, kind=kind, mode='li', waitat=waitat))
+            # kernprof -i 1 / -b -i 1 (cProfile): the same wait; the periodic dump switches cProfile off (known finding:
+            # what the program executes after it is missing from the file) - any other content is a violation
+            for mode in ('plaini', 'bi'):
+                for kind in (KINDS if tier == 'thorough' else (['none', rnd.choice(KINDS[1:])] if mode == 'plaini' else [rnd.choice(KINDS)])):
+                    waitat = rnd.randrange(NPRE + 1, prog['N'] - 3)
+                    k = 0 if kind == 'none' else rnd.randrange(waitat + 1, prog['N'] + 1)
+                    cases.append(dict(p=pi, k=k, kind=kind, mode=mode, waitat=waitat))
         # explicit mode: every decorated function is reported (also the never reached one) and the program's
         # source file is gone when the exit hook writes the outputs
         for kind in (rnd.sample(KINDS, 2) if tier == 'quick' else KINDS):
@@ -670,15 +726,7 @@ def run(tier, seed):
                         exdefs[key] = 'EX_%d_%s_%s' % key
                         body += 'Definition %s : list pev := %s.\n' % (exdefs[key], coq_evs(ex))
                     m = -1 if prog['fin'] else common_prefix(strip(ex), strip(prog['full']))
-                    tickpos = -1
-                    if c.get('waitat'):
-                        seen = 0
-                        for j, e in enumerate(ex):
-                            if e == ('c', TICK):
-                                seen += 1
-                                if seen == c['waitat']:
-                                    tickpos = j + 1
-                                    break
+                    tickpos = tick_position(ex, c.get('waitat', 0))
                     o = obs_all[i]
                     rc = o['rc'] if isinstance(o['rc'], int) else -99
                     regl = '[' + '; '.join(str(x) for x in regset(c['mode'], prog)) + ']%Z'
@@ -690,11 +738,12 @@ def run(tier, seed):
                         rowtxt.append('(explicit_case_ok 100 FULL %s (%d)%%Z %d %d %s %s %d)' % (
                             exdefs[key], m, KCODE[c['kind']], OUTCODE[key[2]], regl, coq_hits(o['got']), o['dumps']))
                     else:
-                        cprof = c['mode'] in ('b', 'plain', 'pm')
+                        bmode = base_mode(c['mode'])
+                        cprof = bmode in ('b', 'plain', 'pm')
                         decl = '[' + '; '.join(str(x) for x in prog['deco']) + ']%Z'
                         rowtxt.append('(kern_case_ok 100 FULL %s (%d)%%Z %d %d (%d)%%Z %s %s %s %s %s %s %s (%d)%%Z %d)' % (
-                            exdefs[key], m, KCODE[c['kind']], OUTCODE[key[2]], tickpos, regl, decl, core.coq_bool(c['mode'] in ('plain', 'pm')),
-                            core.coq_bool(cprof), core.coq_bool(c['mode'] == 'b'), coq_hits({} if cprof else o['got']), coq_calls(o['got'] if cprof else {}),
+                            exdefs[key], m, KCODE[c['kind']], OUTCODE[key[2]], tickpos, regl, decl, core.coq_bool(bmode in ('plain', 'pm')),
+                            core.coq_bool(cprof), core.coq_bool(bmode == 'b'), coq_hits({} if cprof else o['got']), coq_calls(o['got'] if cprof else {}),
                             rc, o['dumps']))
                 body += 'Definition rows : list (bool * bool * bool) := [\n' + ';\n'.join(rowtxt) + '].\n'
                 body += ('Eval vm_compute in (false_indices (map fst3 rows)).\nEval vm_compute in (false_indices (map snd3 rows)).\n'
@@ -771,6 +820,8 @@ def run(tier, seed):
                                  C06_explicit_atexit_partial=sum(1 for r in rs if r['c']['mode'] == 'explicit' and OUTCODE[r['c'].get('out', 'ok')] == 0),
                                  stdout_unusable_at_end=sum(1 for r in rs if OUTCODE[r['c'].get('out', 'ok')] != 0),
                                  C06_final_dump_with_periodic_dumps=sum(1 for r in rs if r['c']['mode'] == 'li'),
+                                 C06_cprofile_periodic_dump_refuted_cases=sum(1 for r in rs if r['c']['mode'] in TIMED_C),
+                                 cprofile_periodic_dump_lost_later_calls=sum(1 for sf in res.spec_fails if sf.get('finding') == F_CPI),
                                  C06_view_agrees_with_file=sum(1 for r in rs if r['c']['mode'] in ('lv', 'lvp')),
                                  C06_wrapper_windows_transparent_generator_programs=sum(1 for r in rs if progs[r['c']['p']]['gen'])),
         samples=[dict(case=rs[i]['c'], impl=brief(rs[i], obs_all[i])) for i in (0, len(rs) // 2, len(rs) - 1)],
